@@ -1,4 +1,5 @@
 import Ysshra.Model.Gensign
+import Ysshra.Lemmas.SwapRemove
 namespace Ysshra.Gensign
 open Ysshra
 
@@ -199,9 +200,10 @@ theorem agentRemove_keeps (a : Agent) (id x : AIdent) (hx : x ∈ a.idents)
   split
   · exact hx
   · split
-    · simp only [Agent.tick, List.mem_filter]
+    · show x ∈ swapRemoveAll _ (2 * a.idents.length + 1) 0 a.idents
+      rw [mem_swapRemoveAll']
       refine ⟨hx, ?_⟩
-      simp only [Bool.not_eq_true', Bool.and_eq_false_iff, decide_eq_false_iff_not]
+      simp only [Bool.and_eq_false_iff, decide_eq_false_iff_not]
       by_cases h1 : x.key = id.key
       · right; exact fun h2 => hne ⟨h1, h2⟩
       · left; exact h1
@@ -214,7 +216,9 @@ theorem agentRemove_sub (a : Agent) (id : AIdent) : ∀ x ∈ (agentRemove a id)
   split at hx
   · exact hx
   · split at hx
-    · exact (List.mem_filter.1 hx).1
+    · have hx' : x ∈ swapRemoveAll _ (2 * a.idents.length + 1) 0 a.idents := hx
+      rw [mem_swapRemoveAll'] at hx'
+      exact hx'.1
     · exact hx
 
 /-- `refreshKeys`: identities that do not carry the handler's label survive, whatever happens -/
@@ -285,9 +289,10 @@ theorem removes_ok_clears (a : Agent) (tr : Trace) (ids : List AIdent)
             · split at hr
               · simp only [Prod.mk.injEq, and_true] at hr
                 subst hr
-                simp only [Agent.tick, List.mem_filter] at hsub
-                have h2 := hsub.2
-                simp only [Bool.not_eq_true', Bool.and_eq_false_iff, decide_eq_false_iff_not] at h2
+                have hsub' : x ∈ swapRemoveAll _ (2 * a.idents.length + 1) 0 a.idents := hsub
+                rw [mem_swapRemoveAll'] at hsub'
+                have h2 := hsub'.2
+                simp only [Bool.and_eq_false_iff, decide_eq_false_iff_not] at h2
                 rintro ⟨h3, h4⟩
                 rcases h2 with h2 | h2
                 · exact h2 h3
